@@ -185,7 +185,20 @@ class C05(Spec):
         b = Batch("c05", cases, config="[network]\ntimeout_seconds = %d\n" % T, env={"VERIF_SIM_PORT_BASE": str(base), "VERIF_CASE_TIMEOUT": "8"}, timeout=600,
                   correspondence="jtp.Get under faults == Jtp.get on the bytes received")
         b.parallel = False
-        runner.run_batches(self, scratch, binary, [b], report)
+        # timeout_seconds = 0 is "no timeout" (Go's dialer convention), not "no time": healthy servers still answer
+        nt = []
+        for i in range(6):
+            w = netgen.World(base, 128)
+            a, b2 = w.url(i % 3, "/nt-redir%d" % i), w.url((i + 1) % 3, "/nt-doc%d" % i)
+            w.serve(a, netgen.redirect(b2))
+            w.serve(b2, corpus[i % len(corpus)], 0)
+            w.fetch(a if i % 2 else b2)
+            w.meta.update({"fault": None, "hops": 2})
+            nt.append(w.case())
+        bnt = Batch("c05-no-timeout", nt, config="[network]\ntimeout_seconds = 0\n", env={"VERIF_SIM_PORT_BASE": str(base), "VERIF_CASE_TIMEOUT": "8"}, timeout=120,
+                    correspondence="timeout_seconds = 0: no deadline")
+        bnt.parallel = False
+        runner.run_batches(self, scratch, binary, [b, bnt], report)
         report.extra["exhaustive"] = True
         report.extra["exhaustive_scope"] = "every cut point of every corpus response (%d responses)" % len(corpus)
 
